@@ -14,6 +14,8 @@ use std::borrow::Cow;
 use ua_parser::device::Flag;
 
 fn main() {
+    // `--cfg vrl_verif` guards the verification hooks (src/compiler/verif.rs); declare it.
+    println!("cargo::rustc-check-cfg=cfg(vrl_verif)");
     read_grok_patterns();
 
     #[cfg(feature = "stdlib-base")]
